@@ -133,6 +133,47 @@ theorem configureTrigger_epoch (c : Chan) (ts : TS) (emt : EMT) (hem : ts.edgeMu
       c'.signed = c.signed ∧ c'.lastTrig = -2305843009213693952 := by
   simp [configureTrigger, hem, EMT.reset]
 
+/-- **No pulse lost (edge) after ConfigurePulseLengths.**  That request changes the record lengths and
+KEEPS the hold-off reference `T0 = LastTrigger` (`configureLengths_epoch`).  When `T0` lies below the new
+search frontier (always the case when the post-trigger length does not grow: the old frontier was
+`|G| − (nsamp_old − npre_old)`), every edge-criterion sample with `npre` samples of history since the
+request and a complete post-trigger is a trigger of the new epoch or lies in the dead time — measured
+with the NEW record length — of one of them or of `T0`. -/
+theorem C02_edge_complete_after_configureLengths {c c' : Chan} {ts : TS} {npre nsamp f0 : Int}
+    {tp : Nat → Int × Int} {n : Nat} {sg : Bool} {zt : ZT} {G : List Nat} {k : Nat} {T0 : Int}
+    (hv : 3 ≤ npre ∧ npre < nsamp) (hem : ts.edgeMulti = false) (hedge : ts.edge = true)
+    (hk : k ≤ G.length) (hbuf : c.buf = G.drop k) (hts : c.ts = ts) (hnpre : c.npre = npre)
+    (hnsamp : c.nsamp = nsamp) (hsync : c.emt.nsamp = nsamp) (hsg : c.signed = sg)
+    (hT0 : c.lastTrig = T0) (hbelow : T0 - f0 < (G.length : Int) + npre - nsamp)
+    (hs0 : ts.level = false → ts.auto = false → edgeAtG (cfgChan ts sg) G (T0 - f0) = true)
+    (segs : List (List Nat)) {tr : List Int}
+    (hrun : runChan zt tp sg n c (f0 + G.length) segs = some (c', tr)) :
+    ∀ p : Int, (G.length : Int) + npre ≤ p → p + (nsamp - npre) < ((G ++ segs.flatten).length : Int) →
+      edgeAtG (cfgChan ts sg) (G ++ segs.flatten) p = true → Cov nsamp f0 (T0 :: tr) p := by
+  have h0 : EdgeInv ts npre nsamp sg G.length G f0 c [T0] k := by
+    refine ⟨hk, hbuf, ⟨hts, hnpre, hnsamp, hsync, Or.inl hsg⟩, ?_, ?_, Or.inl (by simp [hT0]), Or.inl hk, ?_, by simp, ?_⟩
+    · intro p h1 h2; omega
+    · intro T hT; simp at hT; subst hT; exact hbelow
+    · intro hl ha T hT; simp at hT; subst hT; exact hs0 hl ha
+    · intro _ _ T hT; simp at hT; subst hT; omega
+  obtain ⟨k', hinv⟩ := runChan_inv hv hem hedge segs n G c [T0] k c' tr h0 hrun
+  intro p h1 h2 h3
+  have := hinv.covered p h1 (by omega) h3
+  simpa using this
+
+/-- `ConfigurePulseLengths` on one channel, when accepted: buffer, trigger settings and hold-off
+reference are kept; the lengths and the edge-multi copy of them are the new ones -/
+theorem configureLengths_epoch (c : Chan) (nsamp npre : Int) (h : (configureLengths c nsamp npre).2 = false) :
+    let c' := (configureLengths c nsamp npre).1
+    c'.buf = c.buf ∧ c'.ts = c.ts ∧ c'.npre = npre ∧ c'.nsamp = nsamp ∧ c'.emt.nsamp = nsamp ∧
+      c'.signed = c.signed ∧ c'.lastTrig = c.lastTrig := by
+  unfold configureLengths at h ⊢
+  split at h
+  · simp at h
+  · rename_i hc
+    simp only [hc, if_false]
+    exact ⟨rfl, rfl, rfl, rfl, rfl, rfl, rfl⟩
+
 /-! ### Per-block statements for every trigger combination -/
 
 /-- the edge pass of one block: sound, complete up to the dead time, records spaced -/
